@@ -349,6 +349,8 @@ func (r *rewriter) rewriteFile() bool {
 			ref = "Select"
 		case "golang.org/x/sys/unix":
 			ref = "Close"
+		case "golang.org/x/exp/maps":
+			ref = "Clear[map[string]int]"
 		case "os":
 			ref = "Getpid"
 		default:
@@ -743,6 +745,16 @@ func (r *rewriter) rewriteCall(c *astutil.Cursor, n *ast.CallExpr) {
 		}
 	}
 	switch {
+	case pkg == "golang.org/x/exp/maps" && recv == "" && name == "Keys" && len(n.Args) == 1:
+		// deterministic order instead of Go's randomised map order
+		if mt, ok := r.info.TypeOf(n.Args[0]).Underlying().(*types.Map); ok {
+			if b, ok := mt.Key().Underlying().(*types.Basic); ok && b.Kind() == types.String {
+				n.Fun = vs("SortedKeys")
+				r.keep["golang.org/x/exp/maps"] = true
+				r.changed = true
+				st.maps++
+			}
+		}
 	case pkg == "time" && recv == "":
 		repl := map[string]string{"Now": "Now", "After": "TimeAfter", "NewTimer": "NewTimer", "NewTicker": "NewTicker",
 			"Since": "Since", "Until": "Until", "AfterFunc": "AfterFunc"}
